@@ -133,7 +133,10 @@ def universe():
     # selection objects: (name, object, set of fingerprints that issued / can decrypt it)
     fA, fB, fC, fD = u.fprs[0][0], u.fprs[2][0], u.fprs[3], u.fprs[4][0]
     u.select = []
-    for nm, key, fset in (('sig by A', A, [fA]), ('sig by B', B, [fB]), ('sig by C', C, fC), ('sig by D', Dpriv, [fD])):
+    # 'sig by a subkey of C': the usual layout - the primary key certifies, a signing SUBKEY signs; the key that issued it is that subkey
+    signing_subs = [k for k in C.subkeys.values() if KeyFlags.Sign in k._get_key_flags()]
+    assert signing_subs, 'universe: C has no signing subkey'
+    for nm, key, fset in (('sig by A', A, [fA]), ('sig by B', B, [fB]), ('sig by C', C, fC), ('sig by D', Dpriv, [fD]), ('sig by a subkey of C', signing_subs[0], fC[1:])):
         sig = key.sign('selected text')
         owner = [f for f in fset if f[-16:] == sig.signer]
         assert len(owner) == 1, 'signer key id not among the expected fingerprints'
